@@ -17,10 +17,18 @@ def main():
         traceback.print_exc()
         print('no check for %s' % a.pid)
         return 2
+    if a.replay:
+        # a replay file records tier, seed and the rejected events; all drivers are deterministic functions of
+        # (tier, seed), so re-running with them re-executes the recorded operations on the current tree
+        import json
+        with open(a.replay) as f:
+            rec = json.load(f)
+        a.tier, a.seed = rec.get('tier', a.tier), rec.get('seed', a.seed)
+        print('replaying %s: tier=%s seed=%s (%d recorded rejections)' % (a.replay, a.tier, a.seed, len(rec.get('violations', []))))
     ctx = core.Ctx(a.pid, a.tier, a.seed, level=getattr(mod, 'LEVEL', 'exploration'))
     try:
         core.import_repo()
-        if a.replay:
+        if a.replay and hasattr(mod, 'replay'):
             mod.replay(ctx, a.replay)
         else:
             mod.run(ctx)
